@@ -400,7 +400,9 @@ def check_form(run, form, rnd, nsamples, shaped=False):
     name, tys, build, pydef, rty = form
     env = Environment()
     env.enable_infix_notation = True
-    shp = [rnd.choice(shapes_for(t)[1:] or shapes_for(t)) if shaped else shapes_for(t)[0] for t in tys]
+    # shaped = k > 0: argument i takes its (k + i)-th shape (cyclically), so k = 1..4 covers every shape of every argument
+    shp = [(lambda ss: ss[1 + (shaped - 1 + i) % (len(ss) - 1)] if shaped and len(ss) > 1 else ss[0])(shapes_for(t))
+           for i, t in enumerate(tys)]
     if shaped:
         if all(s0[0] == "symbol" for s0 in shp):
             return
@@ -471,7 +473,8 @@ def shard(shard, nshards, wmax, seed, nsamples):
         for i, form in enumerate(fs):
             if i % nshards == shard:
                 check_form(run, form, rnd, nsamples)
-                check_form(run, form, rnd, max(50, nsamples // 10), shaped=True)
+                for k in (1, 2, 3, 4):
+                    check_form(run, form, rnd, max(50, nsamples // 10), shaped=k)
                 check_form_constants(run, form, rnd, 24)
     drive(body, st.randoms(use_true_random=True), 1, derive_seed(seed, "c06", shard))
     if shard == 0:
@@ -514,7 +517,8 @@ def replay(rec):
         if form[0] == base and list(form[1]) == [tuple(t) if isinstance(t, list) else t for t in c["types"]]:
             for sd in range(12):
                 check_form(run, form, random.Random(sd), 200)
-                check_form(run, form, random.Random(sd), 200, shaped=True)
+                for k in (1, 2, 3, 4):
+                    check_form(run, form, random.Random(sd), 200, shaped=k)
                 check_form_constants(run, form, random.Random(sd), 64)
                 if run.violations:
                     break
